@@ -1,9 +1,9 @@
 import Gmx.Model.Position
 import Gmx.Driver.Util
--- ENGINE pos posEngine stateless
+-- ENGINE pos PosE.posEngine stateless
 /-! driver engine `pos` — C11 (pnl of a position) -/
-namespace Gmx.Drv
-open Gmx Gmx.Perp
+namespace Gmx.Drv.PosE
+open Gmx Gmx.Perp Gmx.Drv
 
 def posEngine (args : List String) : String :=
   match args with
@@ -20,4 +20,4 @@ def posEngine (args : List String) : String :=
     | _, _ => "bad-op"
   | _ => "bad-op"
 
-end Gmx.Drv
+end Gmx.Drv.PosE
